@@ -1235,6 +1235,26 @@ class CallMixin:
             if sub in ("ij->i", "ij->j") and len(P) == 2:
                 return self.call_ext(self.ext("numpy.sum", site), [P[1]],
                                      {"axis": self.const(1 if sub == "ij->i" else 0, site)}, st, fr, site)
+        if q == "numpy.piecewise" and len(P) == 3 and not kw:
+            # piecewise(x, [c1, c2, ..], [f1, f2, .. [, default]]):  y = zeros_like(x); y[ck] = fk(x[ck]) in turn (a
+            # funclist entry that is not callable is stored as it is); an extra entry applies where no condition holds
+            cs_ = self.known_items(P[1]) if P[1].op != "Const" else None
+            fs_ = self.known_items(P[2]) if P[2].op != "Const" else None
+            if cs_ is not None and fs_ is not None and cs_ and len(fs_) in (len(cs_), len(cs_) + 1):
+                if len(fs_) == len(cs_) + 1:
+                    none_ = self.unop("Invert", cs_[0] if len(cs_) == 1 else
+                                      self.call_ext(self.ext("numpy.logical_or.reduce", site),
+                                                    [self.mk("List", tuple(cs_), None, site)], {}, st, fr, site), site, None)
+                    cs_ = list(cs_) + [none_]
+                out = self.call_ext(self.ext("numpy.zeros_like", site), [pos[0]], {}, st, fr, site)
+                for c_, f_ in zip(cs_, fs_):
+                    fr_ = self.res(f_, st)
+                    if fr_.op in ("Func", "Closure", "BoundMethod", "Ext", "Partial"):
+                        v_ = self.call(fr_, [self.subscript(pos[0], c_, st, fr, site)], {}, st, fr, site)
+                    else:
+                        v_ = f_
+                    self.write(out, c_, self.snapshot(v_, st), st, fr, site)
+                return out
         if q == "numpy.take" and len(P) == 2 and not kw and self._mask_of_index(P[1]) is not None:
             # take(x, flatnonzero(m)) is x[m] (both flatten alike)
             return self.subscript(pos[0], self._mask_of_index(P[1]), st, fr, site)
